@@ -40,8 +40,7 @@ TRUSTED = [
     "of format_number_with_error; bridge Bridge/BridgeFmt.v (gen_format = format for every operations record)",
     "correspondence harness: harness/props/c20.py (generators, float <-> (mantissa, exponent) encoding, "
     "Fraction oracle)",
-    "NOT COVERED by C20_full: subnormal err (correspondence and oracle only); err >= 9.9999995e307 where the "
-    "function raises OverflowError (C20_full_refuted_overflow; reported by the check as a violation class)",
+    "NOT COVERED by C20_full: subnormal err (correspondence and oracle only)",
 ]
 RULE = ("pairs (x, err) of binary64 numbers: uniform = log-uniform |x| in [1e-300, 1e300] both signs with "
         "err/|x| log-uniform in [1e-12, 1e12]; errb = err mantissa in [9.94, 10.0] (incl. the floats around "
@@ -49,9 +48,10 @@ RULE = ("pairs (x, err) of binary64 numbers: uniform = log-uniform |x| in [1e-30
         "ulps of a power of ten or of the 7-digit rounding boundary 9.9999995eN; ratio = err within 3 ulps of "
         "|x|/10 and |x|; ties = exactly representable decimal ties (0.125, 1.25, 2.5, 0.375 ...) for x and err; "
         "hide = |x| in [1e-3, 1e3] around the hide-exponent switch; zero = x = +-0 with any err; subn = "
-        "subnormal err; over = err at and around 9.9999995e307 / 1e308; corpus = fixed regression inputs. "
-        "distinct = distinct (x, err) bit patterns; non-trivial = x != 0, err normal and below the overflow "
-        "zone (inside the domain of C20_full)")
+        "subnormal err; over = err in [9.9999995e307, largest float] (scaling exponent capped at 308), "
+        "incl. the floats around the cap threshold and the two-digit ties 1.05e308 .. 1.75e308; corpus = fixed "
+        "regression inputs. distinct = distinct (x, err) bit patterns; non-trivial = x != 0 and err normal "
+        "(inside the domain of C20_full)")
 
 DBL_MIN = 2.2250738585072014e-308
 OVER = float(Fr(99999995, 10 ** 7) * 10 ** 307)        # about 9.9999995e307
@@ -134,9 +134,6 @@ def oracle(x, err, out):
     """Failures of the property statement on one observation: list of (key, message)."""
     if out[0] != 0:
         name = {4: "OverflowError", 5: "ZeroDivisionError"}.get(out[1], "exception")
-        if out[1] == 4 and err >= OVER:
-            return [("overflow-error-huge-err",
-                     f"{name} instead of a string for err >= 9.9999995e307 (10**309 does not fit a float)")]
         return [("raises-exception", f"{name} instead of a string")]
     rb = read_back(out[1])
     if rb is None:
@@ -208,6 +205,7 @@ CORPUS = [
     (0.0, 0.5), (-0.0, 0.5), (-0.004, 0.5), (1e300, 1e307), (1e-300, 1e-288), (1e-300, 1e-312),
     (5.0, 9.96), (0.5, 9.96), (12.0, 1.2), (12.0, 1.1999999), (99.99999, 0.01), (9.9999996, 0.5),
     (0.99999996, 0.05), (1.0, 0.0995), (1.0, 0.09949999), (123.456, 99.6), (1234.5, 99.4),
+    (0.0, 1e308), (1.5e308, 1.2e308), (1e300, 1e308), (0.0, 1.7976931348623157e308),
     (2.5e-7, 1.25e-8), (3.0, 0.1), (3.0, 1.0), (3.0, 10.0), (3.0, 100.0), (-3.0, 1e12), (7.0, 7e-12),
 ]
 
@@ -225,7 +223,7 @@ def gen_cases(tier, rng, hard):
     big = tier == "thorough" or hard
     n = {"uniform": 2600 if big else 110, "errb": 1500 if big else 110, "xpow": 900 if big else 70,
          "ratio": 700 if big else 50, "ties": 700 if big else 60, "hide": 700 if big else 60,
-         "zero": 260 if big else 26, "subn": 80 if big else 8}
+         "zero": 260 if big else 26, "subn": 80 if big else 8, "over": 500 if big else 50}
     out = [("corpus", float(x), float(e)) for x, e in CORPUS]
     for _ in range(n["uniform"]):
         x = rand_x(rng)
@@ -292,11 +290,21 @@ def gen_cases(tier, rng, hard):
         else:
             x, err = 0.0, rng.uniform(1, 10) * 10.0 ** rng.randint(-323, -309)
         out.append(("subn", x, err))
-    # the overflow zone
-    for x in (0.0, 1e300, -3.3e297):
+    # err within a factor ten of the largest float (the scaling exponent is capped at 308)
+    fmax = 1.7976931348623157e308
+    for x in (0.0, -0.0, 1e300, -3.3e297, 1.01e296):
         for e in (nudge(OVER, -2), nudge(OVER, -1), OVER, nudge(OVER, 1), 1e308, 1.2345e308,
-                  1.7976931348623157e308):
+                  nudge(fmax, -1), fmax, 9.95e307, 1.05e308, nudge(1.05e308, 1), 1.15e308, 1.25e308):
             out.append(("over", x, e))
+    for _ in range(n["over"]):
+        e = rng.uniform(0.94, 1.0) * 1e308 if rng.random() < 0.4 else rng.uniform(1.0, 1.7976931348623157) * 1e308
+        if rng.random() < 0.2:
+            e = nudge(float(Fr(rng.choice(["1.05", "1.15", "1.25", "1.35", "1.45", "1.55", "1.65", "1.75"]))
+                            * 10 ** 308), rng.randint(-2, 2))
+        e = min(e, fmax)
+        r = rng.random()
+        x = 0.0 if r < 0.3 else rng.uniform(1, 10) * 10.0 ** rng.randint(296, 299) * rng.choice([1, -1])
+        out.append(("over", x, e))
     seen, uniq = set(), []
     for st, x, e in out:
         if not (e > 0.0 and math.isfinite(e) and math.isfinite(x)):
@@ -321,11 +329,11 @@ def run_stream(c, cases, tier):
         out = observe(x, err)
         fails = oracle(x, err, out)
         subn, over = err < DBL_MIN, err >= OVER
-        c.case((x.hex(), err.hex()), nontrivial=(x != 0 and not subn and not over),
+        c.case((x.hex(), err.hex()), nontrivial=(x != 0 and not subn),
                sample={"stream": st, "x": x.hex(), "err": err.hex(), "x_repr": repr(x), "err_repr": repr(err),
                        "out": out[1] if out[0] == 0 else f"raised (tag {out[1]})"})
         c.count("stream", st)
-        c.count("err_class", "subnormal" if subn else "overflow-zone" if over else "normal")
+        c.count("err_class", "subnormal" if subn else "capped-exponent-zone" if over else "normal")
         c.count("x_decade_50", decade(x))
         c.count("x", "zero" if x == 0 else "negative" if x < 0 else "positive")
         if x != 0:
@@ -450,7 +458,7 @@ def run(tier, seed):
         "binary64 division has relative error <= 2^-52 in the normal range, keeps the sign and maps 0 to 0 (H_div)",
         "CPython formats floats by correct rounding (half-even on the exact binary value)",
         "10**k as a float equals the table Model/DecFmtPow.v (compared with the interpreter on this run)",
-        "err is a normal binary64 below 9.9999995e307 (C20_full); outside: correspondence and oracle only",
+        "err is a normal binary64 (C20_full); subnormal err: correspondence and oracle only",
     ]
     c.notes.append("the hide-exponent test (x_exponent in (0, -1), err < abs(x / 10)) only chooses between two "
                    "correct spellings: C20_branches holds whatever it returns; edits there are caught by the "
